@@ -237,6 +237,8 @@ static void check_remove_prefix(Case &c, const Str &path, const Str &prefix)
 }
 
 // ------------------------------------------------------------- generators
+// the path_long target: components of 250..1000 characters
+static bool g_long_nodes = false;
 static Str gen_path(Src &s)
 {
     Str p;
@@ -255,6 +257,15 @@ static Str gen_path(Src &s)
     {
         if (i)
             p.append((size_t)s.range(1, 2), '/');
+        if (g_long_nodes && s.coin())
+        {
+            // a long component (file names of 250..300 and 1000 characters)
+            size_t len = s.coin() ? (size_t)s.range(250, 262) : (size_t)s.pick<uint32_t>({255, 256, 257, 300, 1000});
+            p.append(len, s.coin() ? 'x' : 'a');
+            if (s.coin())
+                p += ".c";
+            continue;
+        }
         p += cl[s.weighted({4, 3, 2, 3, 1, 1, 1, 1})];
     }
     if (s.chance(1, 3))
@@ -355,6 +366,18 @@ static void t_path(Src &s, Case &c)
     }
     }
 }
+static void t_path_long(Src &s, Case &c)
+{
+    struct G
+    {
+        G() { g_long_nodes = true; }
+        ~G() { g_long_nodes = false; }
+    } g;
+    t_path(s, c);
+    c.label("long_components");
+}
+VP_TARGET("path_long", t_path_long,
+          "the path operations on paths whose components are (half of the time) 250..262, 300 or 1000 characters long; same component-wise reference and checks as path");
 VP_TARGET("path", t_path,
           "paths built from components {a b ab . .. .a a. dev} with 1-2 slashes, optional "
           "leading/trailing slashes, or raw strings 0..12 over {a b / .}, in exactly-sized "
